@@ -246,6 +246,8 @@ func C20(c *core.Ctx) {
 	emit(c, a.Route())
 	emit(c, a.CrossPackage("(*pkg/generator.schemaGenerator).generateReferencedType"))
 	emit(c, a.AccumulatorStartsEmpty("main.allKeys"))
+	// "emitted exactly once": a declaration reached twice in one run (a document reached through two spellings) is kept once (A-DECLSET)
+	ruleDeclSet(c)
 	// "(or the defaults)": a mapping given only some of the three per-id flags takes the defaults for the others
 	emit(c, a.MappingDefaults("main.init$1", "generator.SchemaMapping", []string{"PackageName", "OutputName"}))
 	// ... and a value that IS given for an id is used verbatim, the empty string included (`--schema-output=ID=` means "no output")
